@@ -135,7 +135,7 @@ def gen_cases(rec, rng, tier):
     if rec.shard % 4 == 0:
         for (cls, RG) in cfgg.hostile_grammars(rng):
             yield {'cls': cls, 'ref': RG, 'n': 5, 'via_chomsky': True}
-    for _ in range(80 if thorough else 30):
+    for _ in range(300 if thorough else 30):
         nv = rng.randint(1, 6)
         RG = cfgg.random_grammar(rng, nv, rng.randint(1, 10), max_rhs=rng.choice([2, 3, 5]), nt=rng.randint(1, 3),
                                  p_eps=rng.choice([0.0, 0.15, 0.3]), p_unit=rng.choice([0.0, 0.2, 0.4]))
@@ -144,11 +144,11 @@ def gen_cases(rec, rng, tier):
         # the same rule list with another start variable, evaluated in the same interpreter
         for tw in cfgg.start_twins(RG)[:2]:
             yield {'cls': 'same_rules_other_start_variable', 'ref': tw, 'n': 4}
-    for _ in range(30 if thorough else 8):
+    for _ in range(120 if thorough else 8):
         yield {'cls': 'unit_cycles', 'ref': cfgg.unit_cycle_grammar(rng), 'n': 3, 'via_chomsky': True}
         yield {'cls': 'redundant_cnf', 'ref': cfgg.redundant_cnf(rng), 'n': 5}
         yield {'cls': 'ambiguous_name_concatenation', 'ref': cfgg.ambiguous_concat_cnf(rng), 'n': 3}
-    for _ in range(80 if thorough else 30):
+    for _ in range(300 if thorough else 30):
         nv = rng.randint(1, 6)
         RG = cfgg.random_cnf(rng, nv, rng.randint(0, 8), nt=rng.randint(1, 3))
         yield {'cls': 'random_cnf', 'ref': RG, 'n': (6 if thorough else 5) if len(RG[1]) <= 2 else 4}
